@@ -1,6 +1,9 @@
 (* C05 - the lock skeleton of mapdb: lock discipline of every compiled call, and deadlock freedom.
    Hierarchy: view lock (per *mapDB object) -> map lock; a thread holds at most one view lock and never
-   re-acquires a lock it holds (also not for reading); sync.RWMutex with writer preference. *)
+   re-acquires a lock it holds (also not for reading); sync.RWMutex with writer preference.
+   Consumer callbacks of Iterate (ICallbacks / IInvoke / IReturn) run with NO lock held: that is what makes
+   re-entrant consumers safe. The variant that keeps the view's read lock across the callbacks deadlocks
+   (rlock_across_callbacks_deadlocks). *)
 From Coq Require Import NArith List Bool Arith Lia.
 From Verif.C05_KVConc Require Import Model.
 Import ListNotations.
@@ -18,6 +21,9 @@ Fixpoint ok_prog (v : option (nat * bool)) (m : option bool) (p : list instr) : 
   | IEff o :: r => match m with Some w => implb (is_write o) w && ok_prog v m r | None => false end
   | INop :: r => ok_prog v m r
   | IClose :: r => ok_prog v m r
+  (* user code (the consumer) runs, and may call the store, only while this thread holds no lock *)
+  | ICallbacks _ :: r | IInvoke _ :: r | IReturn _ _ _ :: r =>
+      match v, m with None, None => ok_prog None None r | _, _ => false end
   end.
 
 Lemma flush_tail_ok w : ok_prog None None (flush_tail w) = true.
@@ -49,6 +55,32 @@ Proof.
   - intros o Ho. apply in_map_iff in Ho as [kx [<- _]]. apply write_op_is_write.
 Qed.
 
+(* a program that obeys the discipline, followed by one that starts without locks *)
+Lemma ok_prog_app a : forall v m b,
+  ok_prog v m a = true -> ok_prog None None b = true -> ok_prog v m (a ++ b) = true.
+Proof.
+  induction a as [|i a IH]; intros v m b Ha Hb.
+  - simpl in *. destruct v, m; try discriminate. exact Hb.
+  - destruct i as [g|l w|l|o| | |cb|c|ci iv rr]; [ | destruct l | destruct l | | | | | | ];
+      destruct v as [[x w']|], m as [w''|]; simpl in *; try discriminate;
+      try (apply andb_true_iff in Ha as [H1 H2]; rewrite H1; simpl); auto.
+Qed.
+
+Lemma compile_ok_app c tl : ok_prog None None tl = true -> ok_prog None None (compile c ++ tl) = true.
+Proof. intros H. apply ok_prog_app; [apply compile_ok | exact H]. Qed.
+
+Lemma invokes_ok l tl : ok_prog None None tl = true -> ok_prog None None (map IInvoke l ++ tl) = true.
+Proof. intros H. induction l as [|c l IH]; simpl; auto. Qed.
+
+(* wherever a failed `closed` test happens, the return it jumps to is reached without locks *)
+Lemma ok_skip_ret p : forall v m, ok_prog v m p = true -> ok_prog None None (skip_ret p) = true.
+Proof.
+  induction p as [|i p IH]; intros v m H; [reflexivity|].
+  destruct i as [g|l w|l|o| | |cb|c|ci iv rr]; [ | destruct l | destruct l | | | | | | ];
+    destruct v as [[x w']|], m as [w''|]; simpl in *; try discriminate;
+    try (apply andb_true_iff in H as [_ H]); try exact H; eauto.
+Qed.
+
 (* ------------------------------------------------------------------ invariant *)
 Definition lok (th : thread) : Prop :=
   match cur th with
@@ -73,7 +105,7 @@ Qed.
 
 Lemma linv_step s t s' : LInv s -> step s t = Some s' -> LInv s'.
 Proof.
-  intros L H. unfold step in H.
+  intros L H. unfold step, step_with in H.
   destruct (nth_error (threads s) t) as [th|] eqn:Hth; [|discriminate].
   destruct (L th (nth_error_In _ _ Hth)) as [Hp Hw].
   assert (Hupd : forall th', lok th' ->
@@ -85,9 +117,10 @@ Proof.
     destruct (hv th), (hm th); simpl in Hp; try discriminate; auto.
   - assert (Hnw : forall l' p', Some (i :: p) = Some (IAcq l' true :: p') -> i = IAcq l' true)
       by (intros l' p' E; inversion E; reflexivity).
-    destruct i as [g|l w|l|o| |].
+    destruct i as [g|l w|l|o| | |cb|c|ci iv rr].
     + destruct (closed s); inversion H; subst; clear H; apply Hupd; split; simpl;
         destruct (hv th), (hm th); simpl in Hp; try discriminate; auto;
+        try (eapply ok_skip_ret; eassumption);
         intros Hww; destruct (Hw Hww) as [l' [p' E]]; discriminate (Hnw _ _ E).
     + destruct w.
       * destruct (can_lock (threads s) l); [|destruct (ww th) eqn:Eww; [discriminate|]];
@@ -112,6 +145,16 @@ Proof.
       intros Hww. destruct (Hw Hww) as [l' [p' E]]; discriminate (Hnw _ _ E).
     + inversion H; subst; clear H; apply Hupd; split; simpl; auto.
       intros Hww. destruct (Hw Hww) as [l' [p' E]]; discriminate (Hnw _ _ E).
+    + (* ICallbacks *)
+      inversion H; subst; clear H; apply Hupd; split; simpl.
+      * destruct (hv th), (hm th); simpl in Hp; try discriminate. apply invokes_ok. exact Hp.
+      * intros Hww. destruct (Hw Hww) as [l' [p' E]]; discriminate (Hnw _ _ E).
+    + (* IInvoke *)
+      inversion H; subst; clear H; apply Hupd; split; simpl; [|discriminate].
+      destruct (hv th), (hm th); simpl in Hp; try discriminate. apply compile_ok_app. exact Hp.
+    + (* IReturn *)
+      inversion H; subst; clear H; apply Hupd; split; simpl; [|discriminate].
+      destruct (hv th), (hm th); simpl in Hp; try discriminate. exact Hp.
   - destruct (script th) as [|c sc]; [discriminate|]. inversion H; subst; clear H.
     apply Hupd. destruct Hp as [-> ->]. split; simpl; [apply compile_ok | discriminate].
 Qed.
@@ -139,7 +182,7 @@ Lemma step_nonacq s t th i p :
   nth_error (threads s) t = Some th -> cur th = Some (i :: p) -> is_acq i = false ->
   exists s', step s t = Some s'.
 Proof.
-  intros Hth Hc Hi. unfold step. rewrite Hth, Hc. cbv zeta.
+  intros Hth Hc Hi. unfold step, step_with. rewrite Hth, Hc. cbv zeta.
   destruct i; try discriminate; eauto.
   - destruct (closed s); eauto.
   - destruct (eff (mem s) o); eauto.
@@ -148,17 +191,17 @@ Qed.
 Lemma step_acq_w s t th l p :
   nth_error (threads s) t = Some th -> cur th = Some (IAcq l true :: p) -> can_lock (threads s) l = true ->
   exists s', step s t = Some s'.
-Proof. intros Hth Hc Hl. unfold step. rewrite Hth, Hc. cbv zeta. rewrite Hl. eauto. Qed.
+Proof. intros Hth Hc Hl. unfold step, step_with. rewrite Hth, Hc. cbv zeta. rewrite Hl. eauto. Qed.
 
 Lemma step_acq_r s t th l p :
   nth_error (threads s) t = Some th -> cur th = Some (IAcq l false :: p) -> can_rlock (threads s) l = true ->
   exists s', step s t = Some s'.
-Proof. intros Hth Hc Hl. unfold step. rewrite Hth, Hc. cbv zeta. rewrite Hl. eauto. Qed.
+Proof. intros Hth Hc Hl. unfold step, step_with. rewrite Hth, Hc. cbv zeta. rewrite Hl. eauto. Qed.
 
 Lemma ok_hm_head v w p : ok_prog v (Some w) p = true -> exists i p', p = i :: p' /\ is_acq i = false.
 Proof.
   destruct p as [|i p']; simpl; [destruct v; discriminate|].
-  destruct i as [g|l w'|l|o| |]; try (intros _; eexists; eexists; split; reflexivity).
+  destruct i as [g|l w'|l|o| | |cb|c|ci iv rr]; try (intros _; eexists; eexists; split; reflexivity).
   destruct l; [destruct v; discriminate | discriminate].
 Qed.
 
@@ -167,7 +210,7 @@ Lemma ok_hv_head vw p :
   exists i p', p = i :: p' /\ (is_acq i = false \/ exists w, i = IAcq LMap w).
 Proof.
   destruct p as [|i p']; simpl; [discriminate|].
-  destruct i as [g|l w'|l|o| |]; try (intros _; eexists; eexists; split; [reflexivity | left; reflexivity]).
+  destruct i as [g|l w'|l|o| | |cb|c|ci iv rr]; try (intros _; eexists; eexists; split; [reflexivity | left; reflexivity]).
   destruct l; [discriminate|]. intros _. eexists; eexists; split; [reflexivity | right; eauto].
 Qed.
 
@@ -184,7 +227,7 @@ Proof. destruct a, b; simpl; try discriminate; auto. intros H. apply Nat.eqb_eq 
 
 Lemma at_acq_spec l w th : at_acq l w th = true -> exists p, cur th = Some (IAcq l w :: p).
 Proof.
-  unfold at_acq. destruct (cur th) as [[|[g|l' w'|l'|o| |] p]|]; try discriminate.
+  unfold at_acq. destruct (cur th) as [[|[g|l' w'|l'|o| | |cb|c|ci iv rr] p]|]; try discriminate.
   intros H. apply andb_true_iff in H as [H1 H2]. apply lock_eqb_eq in H1. apply eqb_prop in H2. subst. eauto.
 Qed.
 
@@ -209,7 +252,7 @@ Proof.
     + exists t. eapply step_acq_r; eauto. unfold can_rlock. apply forallb_forall. intros th0 H0.
       rewrite (Hfree th0 H0). apply negb_true_iff. unfold waits_w.
       pose proof (find_none_all _ _ Ef th0 H0) as Hn. unfold at_acq in Hn.
-      destruct (cur th0) as [[|[g|l' w'|l'|o| |] p0]|]; try (rewrite andb_false_r; reflexivity).
+      destruct (cur th0) as [[|[g|l' w'|l'|o| | |cb|c|ci iv rr] p0]|]; try (rewrite andb_false_r; reflexivity).
       destruct w'; [|rewrite andb_false_r; reflexivity].
       simpl in Hn. rewrite andb_true_r in Hn. rewrite Hn. apply andb_false_r.
 Qed.
@@ -254,17 +297,57 @@ Proof.
   destruct (In_nth_error _ _ Hinu) as [tu Htu].
   unfold finished in Hfu.
   destruct (cur thu) as [[|i p]|] eqn:Ec.
-  - exists tu. unfold step. rewrite Htu, Ec. eauto.
+  - exists tu. unfold step, step_with. rewrite Htu, Ec. eauto.
   - destruct (is_acq i) eqn:Ei.
-    + destruct i as [g|l w|l|o| |]; try discriminate. destruct l as [x|].
+    + destruct i as [g|l w|l|o| | |cb|c|ci iv rr]; try discriminate. destruct l as [x|].
       * eapply (free_lock_progress s (LView x) (Hvfree x)); eauto.
       * exfalso. eapply Hnomap; eauto.
     + exists tu. eapply step_nonacq; eauto.
   - destruct (script thu) as [|c sc] eqn:Es; [discriminate|].
-    exists tu. unfold step. rewrite Htu, Ec, Es. eauto.
+    exists tu. unfold step, step_with. rewrite Htu, Ec, Es. eauto.
 Qed.
 
 Theorem no_deadlock scripts sch :
   let s := run sch (init scripts) in
   (exists th, In th (threads s) /\ finished th = false) -> exists t s', step s t = Some s'.
 Proof. intros s. apply linv_progress, linv_run, linv_init. Qed.
+
+(* ------------------------------------------------------------------ the variant that keeps the view's read lock *)
+(* s.RLock(); defer s.RUnlock() around the iteration (compile_held): goroutine 0 iterates view 0 with a consumer
+   that reads through the same view; goroutine 1 calls Set on that view while the consumer is inside its first
+   invocation. The writer announces itself and waits for the read lock to be released; the consumer's nested
+   RLock waits behind the announced writer; nobody can take a step any more and neither call ever returns. *)
+Definition held_v0 := mkV 0 [] false.
+Definition held_scripts : list (list call) :=
+  [[CSet held_v0 [97%N] [1%N]; CIterRe held_v0 [] true false 9 [[CGet held_v0 [97%N]]]];
+   [CSet held_v0 [98%N] [2%N]]].
+(* goroutine 0: Set (8 steps), Iterate up to the nested invocation (8 steps); goroutine 1: invoke, closed test,
+   announce; goroutine 0: closed test of the nested Get - and then nothing *)
+Definition held_sch : list nat := repeat 0 8 ++ repeat 0 8 ++ [1; 1; 1] ++ [0; 0].
+Definition held_state : state := Eval vm_compute in run_with compile_held held_sch (init held_scripts).
+
+Lemma held_state_eq : run_with compile_held held_sch (init held_scripts) = held_state.
+Proof. vm_compute. reflexivity. Qed.
+
+Example held_state_heads :
+  map (fun th => (match cur th with Some (i :: _) => Some i | _ => None end, hv th, ww th)) (threads held_state) =
+    [(Some (IAcq (LView 0) false), Some (0, false), false); (Some (IAcq (LView 0) true), None, true)].
+Proof. vm_compute. reflexivity. Qed.
+
+Theorem rlock_across_callbacks_deadlocks :
+  exists scripts sch,
+    let s := run_with compile_held sch (init scripts) in
+    (exists th, In th (threads s) /\ finished th = false) /\ (forall t, step_with compile_held s t = None).
+Proof.
+  exists held_scripts, held_sch. cbv zeta. rewrite held_state_eq. split.
+  - eexists. split; [left; reflexivity | reflexivity].
+  - intros [|[|t]]; [vm_compute; reflexivity | vm_compute; reflexivity |].
+    unfold step_with.
+    replace (nth_error (threads held_state) (S (S t))) with (@None thread); [reflexivity|].
+    symmetry. apply nth_error_None. simpl. lia.
+Qed.
+
+(* the code itself (compile: no lock across the callbacks) finishes the same scripts when the same schedule is continued *)
+Example held_scripts_fine_in_the_code :
+  map finished (threads (run (held_sch ++ repeat 1 8 ++ repeat 0 20) (init held_scripts))) = [true; true].
+Proof. vm_compute. reflexivity. Qed.
